@@ -98,7 +98,9 @@ class Main(Part):
             "extents and inputs. Oracle: tensors equal those of the same spec without spacetime and dense evaluation; exactly one "
             "createCanvas before the first update and one displayCanvas after the last; one addActivity immediately after every "
             "in-place update; every activity has one point per displayed tensor with one coordinate per rank id of that tensor as passed "
-            "to createCanvas; with level-ordered loops all (space,time) stamps are pairwise distinct. Non-trivial = >= 2 activities and "
+            "to createCanvas; a coordinate-style stamp equals the loop coordinate of its rank, relative to the enclosing partition "
+            "level when there is one (loop variables are read from the program's namespace at every addActivity); with level-ordered "
+            "loops all (space,time) stamps are pairwise distinct. Non-trivial = >= 2 activities and "
             "a pos stamp or a coord stamp on a partition level.")
 
     def budget(self, tier):
@@ -120,7 +122,16 @@ class Main(Part):
         hf = oracle.compile_or_skip(spec, metrics=False)
         text = str(hf)
         det = {"yaml": S.to_yaml(spec), "text": text}
-        run = oracle.run_or_violation(text, case, what="program with spacetime")
+        stt0 = spec["spacetime"][out]
+        watch = set()
+        for stamp in list(stt0.get("space", [])) + list(stt0.get("time", [])):
+            if stamp.endswith(".coord"):
+                r = stamp[:-6]
+                root = r.rstrip("0123456789")
+                watch.add(r.lower())
+                if r != root:
+                    watch.add((root + str(int(r[len(root):]) + 1)).lower())
+        run = oracle.run_or_violation(text, case, what="program with spacetime", watch=watch)
         exp = oracle.compare_outputs(case, run, what="program with spacetime")
         # the same spec without the spacetime section
         s0 = dict(spec, spacetime={})
@@ -162,6 +173,39 @@ class Main(Part):
                     raise Violation("activities %d and %d carry the same (space, time) stamp %r" % (seen[stamp], i, stamp),
                                     sig="duplicate-stamp", details=det)
                 seen[stamp] = i
+        # coordinate-style stamps: the loop coordinate, relative to the enclosing partition level when there is one
+        levels = {}
+        for key, dirs in (spec.get("partitioning") or {}).get(out, []):
+            if not key.startswith("("):
+                n = len(dirs) if not dirs[0].startswith("follow") else \
+                    len(dict((k, d) for k, d in spec["partitioning"][out])[dirs[0][7:-1]])
+                levels[key] = n
+        flat_ranks = ["".join(x.strip() for x in key.strip("()").split(",")) for key, _ in
+                      (spec.get("partitioning") or {}).get(out, []) if key.startswith("(")]
+        for which, part in (("space", 0), ("time", 1)):
+            if which == "time" and stt.get("opt") == "slip":
+                continue
+            for pos_, stamp in enumerate(stt.get(which, [])):
+                if not stamp.endswith(".coord"):
+                    continue
+                r = stamp[:-6]
+                root = r.rstrip("0123456789")
+                if any(r.startswith(f) for f in flat_ranks):
+                    continue
+                offset = None
+                if root in levels and r != root:
+                    lv = int(r[len(root):])
+                    if lv < levels[root]:
+                        offset = root + str(lv + 1)
+                for (pts, st_), lvars in zip(cv.acts, cv.loop_vars):
+                    if r.lower() not in lvars or (offset and offset.lower() not in lvars):
+                        continue
+                    want = lvars[r.lower()] - (lvars[offset.lower()] if offset else 0)
+                    got = st_[part][pos_]
+                    if got != want:
+                        raise Violation("coordinate stamp %s is %r but the loop coordinate %s%s is %r"
+                                        % (stamp, got, r.lower(), (" relative to " + offset.lower()) if offset else "", want),
+                                        sig="coord-stamp-value", details=det)
         stamps = list(stt.get("space", [])) + list(stt.get("time", []))
         parts = [k for k, _ in (spec.get("partitioning") or {}).get(out, [])]
         has_pos = any(not s_.endswith(".coord") for s_ in stamps)
